@@ -50,6 +50,9 @@ pub enum Kind {
     Breaker { size: u32, permitted: u32, time_based: bool },
     /// bulkhead with more slots than threads and no wait limit: everybody is admitted at once
     Bulkhead { max: u32 },
+    /// reconnect with zero delay and `max_attempts`; a request flagged `err` meets a backend that
+    /// refuses every call, the others succeed at once
+    Reconnect { max_attempts: u32 },
     /// coalesce over `keys` keys (nobody is cancelled, nothing panics)
     Coalesce { keys: u32 },
     /// adaptive limiter with a fixed limit (min = initial = max) that no thread count reaches
@@ -128,6 +131,12 @@ pub fn gen_bulkhead(rng: &mut Rng) -> ScnT {
     ScnT { kind: Kind::Bulkhead { max: nt as u32 + rng.range(0, 2) as u32 }, threads, pct_depth: *rng.pick(&[0u32, 0, 2]), no_runtime: rng.chance(1, 2) }
 }
 
+pub fn gen_reconnect(rng: &mut Rng) -> ScnT {
+    let nt = rng.range(2, 3) as usize;
+    let threads = (0..nt).map(|_| (0..rng.range(1, 4)).map(|_| TOp::Call { key: 0, err: rng.chance(1, 2) }).collect()).collect();
+    ScnT { kind: Kind::Reconnect { max_attempts: rng.range(1, 3) as u32 }, threads, pct_depth: *rng.pick(&[0u32, 0, 2, 3]), no_runtime: false }
+}
+
 pub fn gen_coalesce(rng: &mut Rng) -> ScnT {
     let keys = rng.range(1, 2) as u32;
     let nt = rng.range(2, 4) as usize;
@@ -157,6 +166,7 @@ pub fn valid(s: &ScnT) -> bool {
             Kind::Cache { policy, ttl_ms } => *policy <= 2 && *ttl_ms >= 5 && *ttl_ms <= 100,
             Kind::Breaker { size, permitted, .. } => *size >= 1 && *size <= 4 && *permitted >= 1 && *permitted <= 3,
             Kind::Bulkhead { max } => *max as usize >= s.threads.len() && *max <= 8 && s.threads.iter().flatten().all(|o| matches!(o, TOp::Call { .. })),
+            Kind::Reconnect { max_attempts } => *max_attempts >= 1 && *max_attempts <= 4 && s.threads.iter().flatten().all(|o| matches!(o, TOp::Call { .. })),
             Kind::Coalesce { keys } => *keys >= 1 && *keys <= 3 && s.threads.iter().flatten().all(|o| matches!(o, TOp::Call { key, .. } if *key >= 1 && key <= keys)),
             Kind::Adaptive { limit } => *limit as usize >= s.threads.len() && *limit <= 8 && s.threads.iter().flatten().all(|o| matches!(o, TOp::Call { .. })),
         }
@@ -356,6 +366,25 @@ pub fn run(s: &ScnT, ctx: &mut RunCtx, prefix: &'static str) -> RunOutput {
                     })
                 });
             }
+            Kind::Reconnect { max_attempts } => {
+                use tower_resilience_reconnect::{ReconnectConfig, ReconnectLayer, ReconnectPolicy};
+                // every call of a request flagged `err` fails (the scripted error is repeated)
+                let layer = ReconnectLayer::new(ReconnectConfig::builder().policy(ReconnectPolicy::fixed(Duration::ZERO)).max_attempts(max_attempts).build());
+                let base = layer.layer(SimInner::new(0));
+                spawn_all(&scn, move || {
+                    let mut svc = base.clone();
+                    Box::new(move |id: u32, _key: u32| {
+                        if let Some(Ok(())) = drive(std::future::poll_fn(|cx| svc.poll_ready(cx)), 50) {
+                            let r = drive(svc.call(Req { id, key: 0 }), 400);
+                            world::note("t_result", id as i64, match r {
+                                Some(Ok(_)) => 0,
+                                Some(Err(_)) => 1,
+                                None => 4,
+                            });
+                        }
+                    })
+                });
+            }
             Kind::Coalesce { .. } => {
                 use tower_resilience_coalesce::{CoalesceError, CoalesceLayer};
                 let base = CoalesceLayer::new(|r: &Req| CKey(r.key)).layer(SimInner::new(0));
@@ -483,6 +512,25 @@ pub fn run(s: &ScnT, ctx: &mut RunCtx, prefix: &'static str) -> RunOutput {
             }
             if world::with(|w| w.max_in_flight[0]) > *max as i64 {
                 push("C01.in_flight_le_max", "threads", format!("peak in-flight {} > max {}", world::with(|w| w.max_in_flight[0]), max));
+            }
+        }
+        Kind::Reconnect { max_attempts } => {
+            for (ti, ops) in s.threads.iter().enumerate() {
+                for (k, op) in ops.iter().enumerate() {
+                    let id = (ti * 100 + k) as u32;
+                    let n = calls.iter().filter(|c| c.req == id).count();
+                    let res = notes(&log, "t_result").find(|(_, a, _)| *a == id as i64).map(|(_, _, c)| c);
+                    let failing = matches!(op, TOp::Call { err: true, .. });
+                    if n > *max_attempts as usize + 1 {
+                        push("C16.call_bound", "threads", format!("request {}: {} inner calls with max_attempts {} (other requests were being served on other threads)", id, n, max_attempts));
+                    }
+                    match (failing, res) {
+                        (true, Some(1)) if n == *max_attempts as usize + 1 => {}
+                        (false, Some(0)) if n == 1 => {}
+                        (_, None) => {}
+                        (_, r) => push("C16.result", "threads", format!("request {} ({}): {} inner calls, result code {:?}, max_attempts {}", id, if failing { "backend refuses every call" } else { "backend answers" }, n, r, max_attempts)),
+                    }
+                }
             }
         }
         Kind::Coalesce { .. } => {
